@@ -224,6 +224,8 @@ def run_batch(ctx, cases, origin):
             add(c, "a", pre + "Sub{" + c["x"] + "}" + MARK)
             add(c, "b", pre + "Sub{" + c["x"] + "}")
             add(c, "c", pre + c["x"])
+        elif c["kind"] == "subflow":
+            add(c, "a", c["fdef"] + pre + c["text"] + MARK)
         elif c["kind"] == "div":
             add(c, "a", pre + "{" + c["x"] + "}" + c["L"] + MARK + " c " + MARK2)
         elif c["kind"] == "share":
@@ -241,7 +243,7 @@ def run_batch(ctx, cases, origin):
     lens.flush()
     for c in cases:
         c["deflen"] = lens.get(c["l"], 96)
-        if c["kind"] != "sub":
+        if c["kind"] not in ("sub", "subflow"):
             lens.get(c["L"], c["deflen"])
     lens.flush()
     for _ in range(8):
@@ -269,6 +271,12 @@ def run_batch(ctx, cases, origin):
         if len(ctx.samples) < 8 and block_notes >= 2 and ctx.dist.get("sampled:" + c["kind"], 0) < 2:
             ctx.dist["sampled:" + c["kind"]] = ctx.dist.get("sampled:" + c["kind"], 0) + 1
             ctx.sample({"kind": c["kind"], "source": src[:240], "start": S})
+        if c["kind"] == "subflow":
+            m = mark_tick(r["a"][2])
+            if m != S:
+                ctx.oracle_fail("Sub{X} left through BREAK / CONTINUE / RETURN did not put the time pointer back", src,
+                                "marker at %s" % m, "marker at %s" % S, input_text=src)
+            continue
         if c["kind"] == "sub":
             m = mark_tick(r["a"][2])
             if m != S:
@@ -317,6 +325,25 @@ def gen_case(rng, kind):
     c = {"kind": kind, "pre": pre, "l": l, "g": g}
     if kind == "sub":
         c["x"] = gen_x(rng)
+    elif kind == "subflow":
+        # "whatever X contains": X is left through BREAK / CONTINUE (of a loop around the Sub) or RETURN (of a function)
+        x1, x2 = gen_x(rng), gen_x(rng)
+        c["fdef"] = ""
+        k = rng.choice([2, 3, 4])
+        j = rng.randrange(0, k)
+        shape = rng.choice(["for_break", "for_continue", "while_break", "return", "return_nested"])
+        if shape == "for_break":
+            c["text"] = "FOR(INT I=0;I<%d;I++){ Sub{ %s IF(I==%d){ BREAK } %s } } " % (k, x1, j, x2)
+        elif shape == "for_continue":
+            c["text"] = "FOR(INT I=0;I<%d;I++){ Sub{ %s IF(I==%d){ CONTINUE } %s } } " % (k, x1, j, x2)
+        elif shape == "while_break":
+            c["text"] = "INT J=0 WHILE(J<%d){ J++ Sub{ %s IF(J==%d){ BREAK } %s } } " % (k, x1, j + 1, x2)
+        elif shape == "return":
+            c["fdef"] = "FUNCTION FS(){ Sub{ %s RETURN(1) %s } } " % (x1, x2)
+            c["text"] = "FS() "
+        else:
+            c["fdef"] = "FUNCTION FS(N){ FOR(INT I=0;I<3;I++){ Sub{ %s IF(I==N){ RETURN(I) } %s } } } " % (x1, x2)
+            c["text"] = "FS(%d) " % rng.randrange(0, 3)
     elif kind == "div":
         c["x"] = gen_x(rng)
         c["L"] = rng.choice(L_POOL)
@@ -370,6 +397,7 @@ def run(ctx):
     run_batch(ctx, corpus_cases(), "corpus")
     n = 220 if ctx.tier == "quick" else 6000
     cases = [gen_case(rng, k) for _ in range(n) for k in ("sub", "div", "share", "chord")]
+    cases += [gen_case(rng, "subflow") for _ in range(n // 3)]
     for i in range(0, len(cases), 4000):
         run_batch(ctx, cases[i:i + 4000], "generated")
 
